@@ -81,6 +81,7 @@ func (c *Client) handleVirtualChannelSettlementProposal(
 	err := c.validateVirtualChannelSettlementProposal(parent, prop)
 	if err != nil {
 		c.rejectProposal(responder, err.Error())
+		return
 	}
 
 	ctx, cancel := context.WithTimeout(c.Ctx(), virtualSettlementTimeout)
